@@ -979,8 +979,13 @@ func checkConverterPairs(c *Ctx, r *Rec, fr *fmtRoles, st *scanTables) {
 	sort.Strings(scanned)
 	e, d := keys(emitted), keys(dispatched)
 	same := strings.Join(e, ",") == strings.Join(scanned, ",") && strings.Join(scanned, ",") == strings.Join(d, ",")
-	r.check(same, "D2-type-names", "cdcn/collection-type-names", "", fmt.Sprintf("the formatter emits, the scanner accepts and the parser dispatches on the same %d names", len(scanned)),
-		fmt.Sprintf("emitted %v, scanned %v, dispatched %v must be one set: a collection of a kind missing on one side does not survive the round trip", e, scanned, d))
+	if len(e) == 0 || len(d) == 0 || len(scanned) == 0 {
+		r.skip("D2-type-names", "cdcn/collection-type-names", "", fmt.Sprintf("the names could not be extracted on every side (emitted %v, scanned %v, dispatched %v): the formatter or the parser does not use a switch over string constants here", e, scanned, d))
+		same = true
+	} else {
+		r.check(same, "D2-type-names", "cdcn/collection-type-names", "", fmt.Sprintf("the formatter emits, the scanner accepts and the parser dispatches on the same %d names", len(scanned)),
+			fmt.Sprintf("emitted %v, scanned %v, dispatched %v must be one set: a collection of a kind missing on one side does not survive the round trip", e, scanned, d))
+	}
 	r.floor("D2-converter-pairs", 7)
 }
 
@@ -1097,6 +1102,7 @@ func checkFormatterPurity(c *Ctx, r *Rec, fr *fmtRoles) {
 		r.check(bad == "", "D3-pure-function-of-argument", construct, c.pos(f.Pos()), "re-initialised before the traversal (or restored by defer)", bad)
 	}
 	r.floor("D3-pure-function-of-argument", 1)
+	steppers10 := depthSteppers(c, info, fr.ms, fr.depthF)
 	for _, name := range sortedKeys(fr.ms) {
 		fd := fr.ms[name]
 		touches := false
@@ -1104,12 +1110,22 @@ func checkFormatterPurity(c *Ctx, r *Rec, fr *fmtRoles) {
 			if s, ok := x.(*ast.IncDecStmt); ok && selectorField(info, s.X) == fr.depthF {
 				touches = true
 			}
+			if call, ok := x.(*ast.CallExpr); ok {
+				if cf := calleeOf(info, call); cf != nil && steppers10[cf.Origin()] != 0 {
+					touches = true
+				}
+			}
 			return true
 		})
-		if touches {
-			bad := depthBalance(c, info, fd, fr.depthF)
-			r.check(bad == "", "D3-depth-balanced", c.fdName(fd), c.pos(fd.Pos()), "net depth change zero on every normal path", bad)
+		if !touches {
+			continue
 		}
+		if _, isStepper := steppers10[c.funcOf(fd).Origin()]; isStepper {
+			r.ok("D3-depth-balanced", c.fdName(fd), c.pos(fd.Pos()), "a helper that only steps the counter by a fixed amount: accounted for in its callers")
+			continue
+		}
+		_, bad := depthBalanceWith(c, info, fd, fr.depthF, steppers10, 0)
+		r.check(bad == "", "D3-depth-balanced", c.fdName(fd), c.pos(fd.Pos()), "net depth change zero on every normal path", bad)
 	}
 	r.floor("D3-depth-balanced", 1)
 }
